@@ -5,6 +5,7 @@ import (
 	"fmt"
 	"github.com/resgateio/resgate/server/reserr"
 	"net/http"
+	"net/url"
 	"sort"
 	"strconv"
 	"strings"
@@ -1164,7 +1165,7 @@ func suiteEncode(tier string, r *rng) func(emit func(pureCase)) {
 	if tier == "thorough" {
 		n = 60000
 	}
-	keys := []string{"a", "b", "k\"q", "x<y", "é", "k1", "", "a b"}
+	keys := []string{"a", "b", "k\"q", "x<y", "é", "k1", "", "a b", "t\tb", "n\nl", "\x01", "u\u2028v", "d\x7f", "c\r", "\b\f", "back\\slash", "&amp;", "日本"}
 	return func(emit func(pureCase)) {
 		for i := 0; i < n; i++ {
 			nn := 1 + r.intn(6)
@@ -1202,8 +1203,8 @@ func suiteEncode(tier string, r *rng) func(emit func(pureCase)) {
 				case 1, 2:
 					m := map[string]codec.Value{}
 					var kvs []string
-					for _, k := range keys[:r.intn(len(keys))] {
-						if r.chance(1, 2) {
+					for _, k := range keys {
+						if r.chance(1, 5) {
 							v, t := mkVal()
 							m[k] = v
 							kvs = append(kvs, hx(k)+"="+t)
@@ -1234,12 +1235,77 @@ func suiteEncode(tier string, r *rng) func(emit func(pureCase)) {
 				impl = canonJSONText(string(out))
 				if strings.HasPrefix(impl, "unparsable:") || strings.HasPrefix(impl, "trailing-garbage:") {
 					specErr = "encoder output is not well-formed JSON"
+				} else if want := refRender(nodes, rids[0], pre, enc == "jsonflat"); want != impl {
+					specErr = "body differs from the recursive expansion of the resource; the reference renderer gives " + want
 				}
 			}
 			emit(pureCase{line: "enc " + b2s(enc == "jsonflat") + " " + hx(pre) + " " + hx(rids[0]) + " " + strings.Join(toks, " "), impl: impl,
 				specErr: specErr, jsonOut: true, class: fmt.Sprintf("%s nodes=%d", enc, nn), trivial: nn == 1})
 		}
 	}
+}
+
+// refRender is the independent reference renderer of C16: it expands the graph into a value tree
+// (never building text by hand) and lets encoding/json print it.
+func refRender(nodes []server.VerifNode, root, pre string, flat bool) string {
+	byRID := map[string]*server.VerifNode{}
+	for i := range nodes {
+		byRID[nodes[i].RID] = &nodes[i]
+	}
+	href := func(rid string) string { return pre + strings.ReplaceAll(url.PathEscape(rid), ".", "/") }
+	var expand func(rid string, path []string) (kind string, content interface{})
+	var value func(v codec.Value, path []string) interface{}
+	value = func(v codec.Value, path []string) interface{} {
+		switch v.Type {
+		case codec.ValueTypeReference:
+			for _, p := range path {
+				if p == v.RID {
+					return map[string]interface{}{"href": href(v.RID)}
+				}
+			}
+			kind, content := expand(v.RID, path)
+			if flat {
+				return content
+			}
+			return map[string]interface{}{"href": href(v.RID), kind: content}
+		case codec.ValueTypeSoftReference:
+			return map[string]interface{}{"href": href(v.RID)}
+		case codec.ValueTypeData:
+			var x interface{}
+			json.Unmarshal(v.Inner, &x)
+			return x
+		default:
+			var x interface{}
+			json.Unmarshal(v.RawMessage, &x)
+			return x
+		}
+	}
+	expand = func(rid string, path []string) (string, interface{}) {
+		n := byRID[rid]
+		path = append(append([]string{}, path...), rid)
+		switch {
+		case n.Err != nil:
+			return "error", map[string]interface{}{"code": n.Err.Code, "message": n.Err.Message}
+		case n.Model != nil:
+			m := map[string]interface{}{}
+			for k, v := range n.Model {
+				m[k] = value(v, path)
+			}
+			return "model", m
+		default:
+			c := []interface{}{}
+			for _, v := range n.Collection {
+				c = append(c, value(v, path))
+			}
+			return "collection", c
+		}
+	}
+	_, content := expand(root, nil)
+	b, err := json.Marshal(content)
+	if err != nil {
+		return "reference-renderer-error:" + err.Error()
+	}
+	return canonJSONText(string(b))
 }
 
 // ---------- status tables (spec monitor with a failing input) ----------
